@@ -35,7 +35,8 @@ META = {
              'TIMIZE=1.'
              " Round 12: header slope 1 with an intercept."
              " Round 13: the jpeg encoding (8-bit, 1 or 3 channels)."
-             " Round 14: NaN voxels in a third of the float volumes."),
+             " Round 14: NaN voxels in a third of the float volumes."
+             " Round 16: sub-check unsupported_volume (1-, 2-, 5-, 6-D files)."),
     "trusted_base": ["nibabel (input files)", "vlib/datasets.read_scale"],
     "assumptions": ["RGB inputs and --sharding are outside the all-in-one "
                     "command's options: sharded programs only take part in "
@@ -467,6 +468,67 @@ def run_grid(ctx, n):
     ctx.run_grid(grid_cases(), check)
 
 
+# ---- volume files the tools cannot convert ---------------------------------
+ODD_SHAPES = [[5, 4, 3, 1, 2], [5, 4, 3, 1, 1], [6, 5], [4, 3, 2, 2, 1],
+              [7], [3, 3, 3, 1, 1, 2]]
+
+
+def check_unsupported(ctx, case):
+    """A volume file with a number of dimensions the converter does not
+    handle (NIfTI vector layout X,Y,Z,1,C; a 2-D image; ...): each command
+    may refuse it with a non-zero status; a pipeline in which EVERY command
+    reported success must have produced a complete, readable dataset."""
+    import nibabel
+    root = ctx.tmpdir("odd")
+    try:
+        shape = case["shape"]
+        rng = np.random.default_rng(case["seed"])
+        vol = rng.integers(0, 200, size=shape).astype(case["stored"])
+        path = os.path.join(root, "vol.nii")
+        nibabel.save(nibabel.Nifti1Image(vol, np.eye(4)), path)
+        opts = [] if case["gzip"] else ["--no-gzip"]
+        pipelines = {
+            "all-in-one": [("pyramid", lambda d: [path, d] + opts)],
+            "step-by-step": [
+                ("v2p", lambda d: [path, d, "--generate-info"] + opts),
+                ("gsi", lambda d: [os.path.join(d, "info_fullres.json"), d]),
+                ("v2p", lambda d: [path, d] + opts),
+                ("compute", lambda d: [d] + opts)]}
+        outcome = {}
+        for name, steps in pipelines.items():
+            d = os.path.join(root, name.replace("-", "_"))
+            refused = None
+            for cmd, mk in steps:
+                rc, err = run_cmd(cmd, mk(d))
+                if rc not in (0, 4) or (rc == 4 and cmd != "v2p"):
+                    refused = cmd
+                    break
+            outcome[name] = refused
+            if refused is None:
+                # every command claimed success: the dataset must be there
+                read_dataset(ctx, d, "%s pipeline on a %d-D volume file %s"
+                             % (name, len(shape), shape))
+        return outcome
+    finally:
+        ctx.rmtree(root)
+
+
+def run_unsupported(ctx, n):
+    cases_ = []
+    for k, shape in enumerate(ODD_SHAPES):
+        for stored in ("uint8", "float32"):
+            cases_.append({"shape": shape, "stored": stored,
+                           "gzip": k % 2 == 0, "seed": k,
+                           "unsupported_volume": True})
+
+    def check(ctx, case):
+        out = check_unsupported(ctx, case)
+        ctx.record(case, True, ["dims%d" % len(case["shape"])] + [
+            "%s.%s" % (k, "completed" if v is None else "refused")
+            for k, v in out.items()])
+    ctx.run_grid(cases_, check)
+
+
 def subprocess_grid_cases():
     """Real processes, with and without `python -O`, for every combination
     of --no-gzip / --flat / sharding (16 cases)."""
@@ -501,7 +563,10 @@ def run_subprocess_grid(ctx, n):
 
 
 def replay(ctx, case):
-    check_case(ctx, case)
+    if case.get("unsupported_volume"):
+        check_unsupported(ctx, case)
+    else:
+        check_case(ctx, case)
 
 
 SUBS = [
@@ -512,4 +577,6 @@ SUBS = [
         sweep=True),
     Sub("subprocess_grid", run_subprocess_grid, replay, quick=1, thorough=1,
         shards=8, sweep=True),
+    Sub("unsupported_volume", run_unsupported, replay, quick=1, thorough=1,
+        shards=6, sweep=True),
 ]
